@@ -84,7 +84,9 @@ def _crc24(data):
 
 HEADER_SETS = [[], [['Version', 'PGPy v0.6']], [['Comment', 'a comment with: colon and spaces']],
                [['Version', 'v1'], ['Comment', 'first'], ['MessageID', 'abc123'], ['Charset', 'utf-8']],
-               [['Comment', 'ünïcode — text']]]
+               [['Comment', 'ünïcode — text']],
+               # a header whose value is empty, one with trailing blanks in the value, a key with a hyphen and digits
+               [['Comment', ''], ['X-Key-2', 'v']], [['Comment', 'ends with two blanks  ']]]
 
 
 def loader(expect):
@@ -158,6 +160,10 @@ def read_events(ctx, wev):
         variants = [('as written', text, True), ('CRLF', text.replace('\n', '\r\n'), True),
                     ('surrounded by text', 'Some leading text\nand more\n\n' + text + '\ntrailing words\n', True),
                     ('no final newline', text.rstrip('\n'), True)]
+        if ascii_only:
+            # the block inside other text that is not ASCII (a mail body): the text is not OpenPGP data - its first octet is not a packet tag
+            variants += [('surrounded by non-ASCII text', 'Gr\xfc\xdfe,\nhere is the k\xe9y \u2713 \U0001f511\n\n' + text + '\n\u2014 bye \u2713\n', True),
+                         ('after Latin-1 text', 'Gr\xfc\xdfe, voil\xe0:\n' + text, True)]
         # the same block re-wrapped at other legal line widths (RFC 4880 6.3: at most 76 characters), as other implementations write it
         if expect != 'cleartext':
             ls = text.split('\n')
@@ -171,7 +177,11 @@ def read_events(ctx, wev):
                     variants.append(('re-wrapped at 76 CRLF', '\r\n'.join(ls[:b0] + wrapped + ls[b1:]), True))
         for vname, vtext, must in variants:
             forms = [('str', vtext)]
-            if ascii_only:
+            if vname == 'surrounded by non-ASCII text':
+                forms += [('bytes', vtext.encode('utf-8')), ('bytearray', bytearray(vtext.encode('utf-8')))]
+            elif vname == 'after Latin-1 text':
+                forms += [('bytes (latin-1)', vtext.encode('latin-1')), ('bytes', vtext.encode('utf-8'))]
+            elif ascii_only:
                 forms += [('bytes', vtext.encode('ascii')), ('bytearray', bytearray(vtext.encode('ascii')))]
             elif vname != 'surrounded by text':
                 forms += [('bytes', vtext.encode('utf-8'))]          # header values are UTF-8 text (RFC 4880 6.2)
